@@ -1117,6 +1117,14 @@ class Exec:
             for k in node.keywords:
                 if k.arg == "default":
                     return self.eval_in_module(module, k.value)
+            for k in node.keywords:
+                if k.arg == "default_factory":
+                    f = self.eval_in_module(module, k.value)
+                    self.frames.append(Frame({}, [], module, "<default_factory>"))
+                    try:
+                        return self.call(f, [], {})
+                    finally:
+                        self.frames.pop()
             raise Unsupported("dataclass field without default")
         return self.eval_in_module(module, node)
 
